@@ -15,12 +15,15 @@ SW = "/tmp/leafbench-%d" % os.getpid()
 def one(d):
     name = os.path.basename(d)
     wt = os.path.join(SW, name)
-    subprocess.run(["git", "-C", "/repo", "worktree", "remove", "--force", wt], capture_output=True)
     shutil.rmtree(wt, ignore_errors=True)
-    os.makedirs(SW, exist_ok=True)
-    r = subprocess.run(["git", "-C", "/repo", "worktree", "add", "--detach", wt, "HEAD"], capture_output=True)
+    os.makedirs(wt, exist_ok=True)
+    # a plain copy of /repo's HEAD (no git worktree: several benches may run at the same time)
+    r = subprocess.run("git -C /repo archive HEAD | tar -x -C %s" % wt, shell=True, capture_output=True, text=True)
     res = {"id": name}
     try:
+        if r.returncode != 0:
+            res["error"] = "cannot copy /repo: " + r.stderr[-200:]
+            return res
         r = subprocess.run(["git", "apply", os.path.join(d, "patch.diff")], cwd=wt, capture_output=True, text=True)
         if r.returncode != 0:
             res["error"] = "patch does not apply: " + r.stderr[-200:]
@@ -34,9 +37,9 @@ def one(d):
             res["fatal"] = [l for l in out.splitlines() if l.startswith("leaf_gate:")][:2]
         res["untranslatable"] = sorted(set(re.findall(r"^untranslatable (\S+):", out, re.M)))
     finally:
-        subprocess.run(["git", "-C", "/repo", "worktree", "remove", "--force", wt], capture_output=True)
         shutil.rmtree(wt, ignore_errors=True)
     return res
+
 
 def main():
     which = sys.argv[1] if len(sys.argv) > 1 and not sys.argv[1].startswith("-") else "all"
@@ -49,7 +52,6 @@ def main():
     dirs = [d for d in dirs if os.path.exists(os.path.join(d, "patch.diff"))]
     with ThreadPoolExecutor(j) as ex:
         results = list(ex.map(one, dirs))
-    subprocess.run(["git", "-C", "/repo", "worktree", "prune"], capture_output=True)
     shutil.rmtree(SW, ignore_errors=True)
     os.makedirs(os.path.join(ROOT, "build"), exist_ok=True)
     json.dump(results, open(os.path.join(ROOT, "build", "leaf_bench_%s.json" % which), "w"), indent=1)
